@@ -229,6 +229,28 @@ var specC17Model = Register(&Spec[ClDoc]{
 				return errf("Parse over a %s: %v (changelog %q)", name, err, text)
 			}
 		}
+		// the file-based entry points see the same entries
+		if len(text)%3 == 0 {
+			if f, ferr := os.CreateTemp("", "c17-*.changelog"); ferr == nil {
+				f.WriteString(text)
+				f.Close()
+				fromFile, err := changelog.ParseFile(f.Name())
+				firstFromFile, err1 := changelog.ParseFileOne(f.Name())
+				os.Remove(f.Name())
+				if err != nil {
+					return errf("ParseFile rejected a well-formed changelog %q: %v", text, err)
+				}
+				if err := entriesMatch(fromFile, d.Entries); err != nil {
+					return errf("ParseFile: %v (changelog %q)", err, text)
+				}
+				if err1 != nil || firstFromFile == nil {
+					return errf("ParseFileOne failed on %q: %v", text, err1)
+				}
+				if err := clEntryMatches(*firstFromFile, d.Entries[0], 0); err != nil {
+					return errf("ParseFileOne: %v", err)
+				}
+			}
+		}
 		one, err := changelog.ParseOne(bufio.NewReader(strings.NewReader(text)))
 		if err != nil || one == nil {
 			return errf("ParseOne failed on %q: %v", text, err)
